@@ -13,6 +13,125 @@ use std::collections::{HashMap, HashSet};
 use std::hash::{Hash, Hasher};
 use std::io::{BufRead, Write};
 
+use std::alloc::{GlobalAlloc, Layout, System};
+use std::sync::atomic::{AtomicIsize, Ordering as AO};
+
+/// Counting allocator: live heap bytes of the whole process (sampled at churn checkpoints)
+struct Counting;
+static LIVE_BYTES: AtomicIsize = AtomicIsize::new(0);
+unsafe impl GlobalAlloc for Counting {
+    unsafe fn alloc(&self, l: Layout) -> *mut u8 {
+        LIVE_BYTES.fetch_add(l.size() as isize, AO::Relaxed);
+        System.alloc(l)
+    }
+    unsafe fn dealloc(&self, p: *mut u8, l: Layout) {
+        LIVE_BYTES.fetch_sub(l.size() as isize, AO::Relaxed);
+        System.dealloc(p, l)
+    }
+}
+#[global_allocator]
+static GLOBAL: Counting = Counting;
+
+/// Handle churn without the scheduler: cycles of add_stream / clone / drop / into_single with a fixed set of
+/// operating handles; live memory is sampled at checkpoints (C17).
+fn churn(args: &[String]) {
+    use handles::H;
+    use payload::P;
+    let family = arg(args, "--family").unwrap_or("bcast").to_string();
+    let fut = args.iter().any(|a| a == "--fut");
+    let cap: u64 = arg(args, "--cap").and_then(|s| s.parse().ok()).unwrap_or(4);
+    let cycles: usize = arg(args, "--cycles").and_then(|s| s.parse().ok()).unwrap_or(10000);
+    let early_drop = args.iter().any(|a| a == "--early-drop");
+    let traffic = args.iter().any(|a| a == "--traffic");
+    let mut out = open_w(arg(args, "--out")).unwrap_or_else(|| Box::new(std::io::sink()));
+    rt::enter(None);
+    {
+        let mut st = rt::rt().lock();
+        st.mute = true;
+        st.active = false;
+    }
+    let name = format!("churn-{}{}-c{}{}{}", family, if fut { "F" } else { "" }, cap,
+                       if early_drop { "-early" } else { "" }, if traffic { "-traffic" } else { "" });
+    writeln!(out, "{}", json!({"e":"reset","scn":name.clone(),"fl":family,"fut":fut,"cap":cap,"wait":"busy","run":1})).unwrap();
+    for round in 0..2 {
+        let blocks0 = rt::rt().lock().allocs.len();
+        out.flush().unwrap();
+        let heap0 = LIVE_BYTES.load(AO::Relaxed);
+        let (tx, mut rx) = handles::create(&family, fut, cap, "busy", Some((0, 0)));
+        if early_drop {
+            // a non-last handle of the stream that goes away before the churn starts
+            let c = rx.dup().unwrap();
+            drop(c);
+        }
+        // "traffic": a second pair of handles that sends and receives in every cycle
+        let mut traffic_pair = if traffic { Some((tx.dup().unwrap(), rx.dup().unwrap())) } else { None };
+        let mut v = 1u64;
+        let mut next_ck = 100usize;
+        for i in 1..=cycles {
+            match &rx {
+                H::BR(_) | H::BFR(_) => {
+                    let mut a = rx.add_stream().unwrap();
+                    let c = a.dup().unwrap();
+                    let _ = tx.try_send(P::new(v));
+                    v += 1;
+                    let _ = rx.try_recv();
+                    let _ = a.try_recv();
+                    drop(c);
+                    drop(a);
+                }
+                _ => {
+                    let mut c = rx.dup().unwrap();
+                    let _ = tx.try_send(P::new(v));
+                    v += 1;
+                    let _ = c.try_recv();
+                    let _ = rx.try_recv();
+                    drop(c);
+                }
+            }
+            let t2 = tx.dup().unwrap();
+            let _ = t2.try_send(P::new(v));
+            v += 1;
+            drop(t2);
+            let _ = rx.try_recv();
+            if let Some((ttx, trx)) = traffic_pair.as_mut() {
+                let _ = ttx.try_send(P::new(v));
+                v += 1;
+                let _ = trx.try_recv();
+                let _ = trx.try_recv();
+            }
+            if i % 7 == 0 && !traffic {
+                // shared <-> single-consumer round trip
+                rx = match rx.into_single() {
+                    Ok(u) => match u.into_multi() {
+                        Ok(m) => m,
+                        Err(u2) => u2,
+                    },
+                    Err(m) => m,
+                };
+            }
+            if i == next_ck || i == cycles {
+                let st = rt::rt().lock();
+                let blocks = st.allocs.len() as i64 - blocks0 as i64;
+                let hook_bytes: usize = st.allocs.values().map(|a| a.0).sum();
+                drop(st);
+                if round == 1 { writeln!(out, "{}", json!({"e":"ckpt","k":i,"blocks":blocks,"hook_bytes":hook_bytes,
+                                           "heap":LIVE_BYTES.load(AO::Relaxed)})).unwrap(); }
+                next_ck *= 10;
+            }
+        }
+        drop(traffic_pair);
+        drop(tx);
+        drop(rx);
+        let heap1 = LIVE_BYTES.load(AO::Relaxed);
+        let live = rt::rt().lock().allocs.len() as i64 - blocks0 as i64;
+        if round == 1 { writeln!(out, "{}", json!({"e":"end","left":0,"live":live,"live_bytes":0,"outcome":"Done",
+                                   "heap_delta":heap1 - heap0})).unwrap(); }
+    }
+    out.flush().unwrap();
+    println!("{}", json!({"runs":1,"distinct_traces":1,"nontrivial":0,"events":0,"outcomes":{"Done":1},
+                          "exhaustive":false,"max_steps":0,"extra":{"cycles":cycles}}));
+}
+
 fn arg<'a>(args: &'a [String], k: &str) -> Option<&'a str> {
     args.iter().position(|a| a == k).and_then(|i| args.get(i + 1)).map(|s| s.as_str())
 }
@@ -127,6 +246,10 @@ fn main() {
         }
     }));
     let cmd = args[1].as_str();
+    if cmd == "churn" {
+        churn(&args);
+        return;
+    }
     let scns = load_scenarios(arg(&args, "--scn").expect("--scn"));
     let only = arg(&args, "--only");
     let record_ops = arg(&args, "--ops-out").is_some() || cmd == "replay";
